@@ -36,6 +36,7 @@ def Pen.addAll (p : Pen σ α) : List (Entry σ α) → Pen σ α
 
 /-! ### what `add_quote` guarantees -/
 
+omit [DecidableEq σ] in
 theorem addQuote_nodup (p : Pen σ α) (h : p.dates.Nodup) (b a : α) (d : Int) (s : σ) :
     (p.addQuote b a d s).dates.Nodup := by
   unfold Pen.addQuote
@@ -52,6 +53,7 @@ theorem addQuote_nodup (p : Pen σ α) (h : p.dates.Nodup) (b a : α) (d : Int) 
 /-- a date is listed iff some quote was stored under it -/
 def DatesAreEntryDates (p : Pen σ α) : Prop := ∀ d, d ∈ p.dates ↔ ∃ e ∈ p.entries, e.date = d
 
+omit [DecidableEq σ] in
 theorem addQuote_dates (p : Pen σ α) (h : DatesAreEntryDates p) (b a : α) (d : Int) (s : σ) :
     DatesAreEntryDates (p.addQuote b a d s) := by
   intro x
@@ -73,6 +75,7 @@ theorem addQuote_dates (p : Pen σ α) (h : DatesAreEntryDates p) (b a : α) (d 
       · exact Or.inl ((h x).mpr ⟨e, he, hed⟩)
       · subst he; exact Or.inr hed.symm
 
+omit [DecidableEq σ] in
 /-- quotes inserted in non-decreasing date order give strictly increasing `dates`: the dataset
     `d1 < … < dN` of C07 is what loading a series date by date builds -/
 theorem addQuote_sorted (p : Pen σ α) (h : p.dates.Pairwise (· < ·)) (b a : α) (d : Int) (s : σ)
@@ -95,6 +98,7 @@ theorem addQuote_sorted (p : Pen σ α) (h : p.dates.Pairwise (· < ·)) (b a : 
       · exact hlast x hx
       · exact hx ▸ Int.le_refl _
 
+omit [DecidableEq σ] in
 theorem addAll_sorted : ∀ (es : List (Entry σ α)) (p : Pen σ α), p.dates.Pairwise (· < ·) →
     (∀ x ∈ p.dates, ∀ e ∈ es, x ≤ e.date) → es.Pairwise (fun e f => e.date ≤ f.date) →
     (p.addAll es).dates.Pairwise (· < ·)
@@ -103,5 +107,35 @@ theorem addAll_sorted : ∀ (es : List (Entry σ α)) (p : Pen σ α), p.dates.P
     rw [List.pairwise_cons] at hs
     obtain ⟨h1, h2⟩ := addQuote_sorted p h e.bid e.ask e.date e.sym (fun x hx => hle x hx e (by simp))
     exact addAll_sorted es _ h1 (fun x hx f hf => Int.le_trans (h2 x hx) (hs.1 f hf)) hs.2
+
+omit [DecidableEq σ] in
+theorem addAll_nodup : ∀ (es : List (Entry σ α)) (p : Pen σ α), p.dates.Nodup → (p.addAll es).dates.Nodup
+  | [], _, h => h
+  | e :: es, p, h => addAll_nodup es _ (addQuote_nodup p h e.bid e.ask e.date e.sym)
+
+omit [DecidableEq σ] in
+theorem addAll_dates : ∀ (es : List (Entry σ α)) (p : Pen σ α), DatesAreEntryDates p →
+    DatesAreEntryDates (p.addAll es)
+  | [], _, h => h
+  | e :: es, p, h => addAll_dates es _ (addQuote_dates p h e.bid e.ask e.date e.sym)
+
+omit [DecidableEq σ] in
+theorem addAll_entries : ∀ (es : List (Entry σ α)) (p : Pen σ α), (p.addAll es).entries = p.entries ++ es
+  | [], p => by simp [Pen.addAll]
+  | e :: es, p => by
+    rw [Pen.addAll, addAll_entries es]; simp [Pen.addQuote]
+
+/-- the stored quote for (date, symbol) is the **last** one added for that pair -/
+theorem quote_last (p : Pen σ α) (d : Int) (s : σ) (pre post : List (Entry σ α)) (e : Entry σ α)
+    (hp : p.entries = pre ++ e :: post) (he : e.date = d ∧ e.sym = s)
+    (hpost : ∀ f ∈ post, ¬ (f.date = d ∧ f.sym = s)) : p.quote d s = some e := by
+  unfold Pen.quote
+  rw [hp, List.reverse_append, List.reverse_cons, List.find?_append, List.find?_append]
+  have h1 : post.reverse.find? (fun e => e.date == d && e.sym == s) = none := by
+    rw [List.find?_eq_none]
+    intro f hf
+    have := hpost f (by simpa using hf)
+    simpa using this
+  simp [h1, he.1, he.2]
 
 end PPen
